@@ -273,7 +273,13 @@ def r14_3(ctx: Ctx) -> RuleResult:
     for fn, node, kinds in prods:
         concrete = kinds - {"inherit", "param"}
         if "?" in concrete:
-            raise AnalysisError(f"R14.3: cannot classify the parts produced at {fn.loc(node)} (`{short(node)}`)")
+            # the shape of this producer is not one this rule knows: the question it answers (do two spellings of one
+            # pointer compare equal, hash alike, and relate alike) is then put to R14.9, which executes those very
+            # operations on pointers built both ways (and fails the run if it cannot follow them)
+            rr.floor = 0
+            rr.ok(fn.loc(node), f"{fn.qualname}: parts producer of an unfamiliar shape (`{short(node)}`); decided by execution in R14.9")
+            rr.note("R14.3 fell back to R14.9 (equality, hash and relativity executed on pointers built from text and from parts)")
+            return rr
         classes |= concrete
         rr.ok(fn.loc(node), f"{fn.qualname}: parts normalised as {sorted(kinds) or ['()']}")
     rr.note(f"element normalisers in use: {sorted(classes)}")
